@@ -191,6 +191,9 @@ def family_event(i, kind, variants, roles, probes):
         gen.MEMO[0] = None
 
 
+BROKEN = []
+
+
 def zlib_coin(x):
     import zlib
     return zlib.crc32(repr(x).encode()) % 2 == 0
@@ -220,6 +223,10 @@ def _family_event(i, kind, variants, roles, probes, objs, terms, sigs):
         elif kind == "rule":
             o = ruledrv.build_rule(v)
             terms.append(enc_rule(o))
+            if terms[-1]["path"]["dt"] != v.get("pdt", "none") or len(terms[-1]["path"]["parts"]) != len(v["rparts"]):
+                # the object is not the rule that was defined (e.g. the modifier of its path was lost on the way in):
+                # reported as an inequality of a rebuilt copy - the definition and the object must agree
+                BROKEN.append(repr(v)[:300])
             sigs.append(rtdrv.rule_behaviour(o, probes + rtdrv.CAST_PROBES))
         else:
             o = valida.Schema([ruledrv.build_rule(r) for r in v])
@@ -279,6 +286,10 @@ def make_family(rng, kind):
         if rng.random() < 0.35:
             # the rule's OWN path with a datum modifier: another rule (it judges the length / the keys of what is selected)
             vs.append(dict(copy.deepcopy(x), pdt=rng.choice(["length", "map_keys", "dtype"])))
+        if rng.random() < 0.15:
+            # ... and the rule on the document itself (no parts) next to the rule on its length
+            root = dict(copy.deepcopy(x), rparts=[])
+            vs += [root, dict(copy.deepcopy(root), pdt=rng.choice(["length", "dtype"]))]
     else:
         x = [ruledrv.rule_recipe(rng, doc, cast_p=0.2, maxlen=2) for _ in range(rng.choice([1, 2, 2, 3]))]
         vs = [x, reorder_maps(copy.deepcopy(x)), [dict(r, cond=commute(r["cond"])) for r in x]]
@@ -330,6 +341,10 @@ def run(rep, tier, seed):
             continue
         except (TypeError, ValueError, AttributeError, KeyError):
             continue                 # a mutant that cannot be constructed is not a family member
+        if BROKEN:
+            rep.reject({"clause": "ObjectIsTheRuleDefined", "kind": kind}, {"recipe": {"kind": kind, "variants": repr(vs)[:3000], "roles": roles},
+                                                                           "event": e, "detail": BROKEN[0]})
+            del BROKEN[:]
         events.append(e)
         recipes[e["id"]] = {"kind": kind, "variants": repr(vs)[:3000], "roles": roles}
         rep.note_case(repr(vs), nontrivial=len(set(e["beh"])) > 1)
